@@ -158,3 +158,59 @@ def reuse_scenarios(ctx, key, label, nv=3, reps=10):
             ctx.count('reuse:' + scenario)
             if not ok:
                 break
+
+
+def undeclare_scenarios(ctx, key, label, quick=True):
+    """variables declared, nodes with identical children created in every
+    order of their levels, unused variables removed (implicitly and by name):
+    the table must stay canonical and building a held function again must
+    return the same reference"""
+    import itertools
+    from . import oracle
+    rng = ctx.rng
+    n = 4
+    cases = []
+    for k in (2, 3):
+        for used in itertools.combinations(range(n), k):
+            for perm in itertools.permutations(used):
+                cases.append((used, perm))
+    if quick:
+        cases = rng.sample(cases, 24)
+    for used, perm in cases:
+        for explicit in (False, True):
+            s = ctx.session(f'{label} undeclare used={used} created={perm} explicit={explicit}')
+            s.op(0, 'new', {v: v for v in range(n)})
+            b = s.impl.mgr[0]
+            refs = {}
+            for v in perm:
+                u = s.op(0, 'var', v)
+                s.op(0, 'incref', u)
+                refs[v] = u
+            # a second family with identical children: ite(v, p, q) for two variables
+            if len(perm) >= 3:
+                lo = max(perm)
+                for v in perm:
+                    if v != lo:
+                        w = s.op(0, 'ite', refs[v], refs[lo], -refs[lo])
+                        if w is not None:
+                            s.op(0, 'incref', w)
+            unused = [v for v in range(n) if v not in used]
+            r = s.op(0, 'undeclare', unused if explicit else [])
+            case = lambda s=s: dict(stream=s.label, lines=list(s.lines))  # noqa: E731
+            ctx.case((label, 'undeclare', used, perm, explicit), True)
+            ctx.count('undeclare-scenario')
+            if r is None:
+                ctx.violation(key, f'undeclare_vars refused to remove the unused variables {unused}', case)
+                continue
+            bad = oracle.check_table(b)
+            if bad:
+                ctx.violation(key, f'after undeclare_vars: {bad[:2]}', case)
+                continue
+            for v in perm:
+                u2 = s.op(0, 'var', v)
+                if u2 != refs[v]:
+                    ctx.violation(key, f'var({v}) returned {u2} after undeclare_vars, the held reference is {refs[v]}', case)
+                    break
+            bad = oracle.check_table(b)
+            if bad:
+                ctx.violation(key, f'after rebuilding: {bad[:2]}', case)
